@@ -154,3 +154,154 @@ def random_batch(n, seed, cfg=None, *, compiled=None, both=False, first_id=0):
         c = (rnd.random() < 0.5) if compiled is None else compiled
         out.append(parse_record(first_id + i, scn, data, start, c, both=both))
     return out
+
+
+def value_record(rid, scn, v, compiled, tag="value"):
+    """Construct the abstract value v as a real object, dump it and parse the dump back."""
+    t, mode = scn["type"], scn["mode"]
+    rec = {"id": rid, "kind": "value", "type": t, "mode": mode, "consts": scn["consts"] or {"_": 0}, "v": v,
+           "defs": scn["defs"], "req_compiled": compiled, "tag": tag, "input": [], "start": 0}
+    try:
+        cs = load(scn["defs"], mode, compiled)
+        T = getattr(cs, t["name"])
+    except Exception as e:  # noqa: BLE001
+        rec["loaderr"] = f"{type(e).__name__}: {e}"[:300]
+        return rec
+    try:
+        real = absyn.unproject(v, t, T)
+    except Exception as e:  # noqa: BLE001 - refusing the number at construction time is a refusal too
+        rec["obs"] = {"dump": {"status": "error", "b": [], "exc": f"construct: {type(e).__name__}: {e}"[:200]}, "re": NO_RE}
+        return rec
+    dump, re = observe_dump(T, t, real)
+    rec["obs"] = {"dump": dump, "re": re}
+    return rec
+
+
+def value_batch(n, seed, cfg=None, first_id=0):
+    """Directly constructed values (round trip) and values with one number that does not fit (refusal)."""
+    rnd = random.Random(seed)
+    cfg = dict(cfg or {}, union=False, eof=False)   # an inner [EOF] array makes a value non round-trippable by definition
+    out = []
+    while len(out) < n:
+        scn = gen_scenario(rnd, cfg, top_union=0)
+        t, mode = scn["type"], scn["mode"]
+        compiled = rnd.random() < 0.5
+        try:
+            v = absyn.gen_value(rnd, t, mode, scn["consts"])
+        except Exception:  # noqa: BLE001 - inconsistent shapes are not values of the type
+            continue
+        out.append(value_record(first_id + len(out), scn, v, compiled))
+        leaves = list(absyn.leaf_paths(t, mode))
+        if leaves:
+            path, leaf = rnd.choice(leaves)
+            bad = absyn.set_leaf(v, path, absyn.misfit(rnd, leaf, mode))
+            if bad is not None:
+                out.append(value_record(first_id + len(out), scn, bad, compiled, tag="misfit"))
+    return out
+
+
+# ------------------------------------------------------------------------------------------ C04 / C09 observations
+class MiniFile:
+    """A minimal file-like object: read / seek / tell only."""
+
+    def __init__(self, data):
+        self._b = io.BytesIO(data)
+
+    def read(self, n=-1):
+        return self._b.read(n)
+
+    def seek(self, pos, whence=0):
+        return self._b.seek(pos, whence)
+
+    def tell(self):
+        return self._b.tell()
+
+
+FORMS = ("call", "read", "reads", "csread")
+KINDS = ("bytes", "bytearray", "memoryview", "bytesio", "minifile")
+
+
+def observe_forms(cs, T, t, data, start):
+    """The same parse through every call form x input kind.  Buffer kinds receive data[start:]."""
+    out = []
+    name = t["name"]
+    for kind in KINDS:
+        for form in FORMS:
+            stream_kind = kind in ("bytesio", "minifile")
+            if form == "reads" and stream_kind:
+                continue
+            if stream_kind:
+                x = io.BytesIO(data) if kind == "bytesio" else MiniFile(data)
+                x.seek(start)
+            else:
+                x = {"bytes": bytes, "bytearray": bytearray, "memoryview": memoryview}[kind](data[start:])
+            try:
+                if form == "call":
+                    v = T(x)
+                elif form == "read":
+                    v = T.read(x)
+                elif form == "reads":
+                    v = T.reads(x)
+                else:
+                    v = cs.read(name, x)
+                ent = {"form": form, "kind": kind, "status": "ok", "v": project(v, t), "sizes": sizes_of(v, T),
+                       "pos": x.tell() if stream_kind else -1}
+            except Exception as e:  # noqa: BLE001
+                ent = {"form": form, "kind": kind, "status": classify(e), "v": NONE_V, "sizes": [], "pos": -1,
+                       "exc": f"{type(e).__name__}: {e}"[:160]}
+            out.append(ent)
+    return out
+
+
+def enrich(rec, *, sizeof=False, forms=False):
+    """Re-load the record's definition and add the C04 (sizeof) / C09 (forms x kinds) observations."""
+    if "obs" not in rec:
+        return rec
+    from dissect.cstruct import Expression
+
+    t, mode = rec["type"], rec["mode"]
+    cs = load(rec["defs"], mode, rec["req_compiled"])
+    T = getattr(cs, t["name"])
+    if sizeof:
+        try:
+            rec["obs"]["sizeof"] = int(Expression(cs, f"sizeof({t['name']})").evaluate())
+        except TypeError:
+            rec["obs"]["sizeof"] = -1
+        except Exception as e:  # noqa: BLE001
+            rec["obs"]["sizeof"] = -2
+            rec["obs"]["sizeof_exc"] = f"{type(e).__name__}: {e}"[:160]
+    if forms:
+        rec["obs"]["forms"] = observe_forms(cs, T, t, bytes(rec["input"]), rec["start"])
+    return rec
+
+
+def history_records(rid, scn, rnd, compiled, count=3):
+    """Several parses of the same type, one after the other on one stream: each is its own recorded execution."""
+    t, mode = scn["type"], scn["mode"]
+    out = []
+    try:
+        cs = load(scn["defs"], mode, compiled)
+        T = getattr(cs, t["name"])
+    except Exception as e:  # noqa: BLE001
+        return [{"id": rid, "kind": "parse", "type": t, "mode": mode, "defs": scn["defs"], "req_compiled": compiled,
+                 "loaderr": f"{type(e).__name__}: {e}"[:300]}]
+    data = gen_input(rnd, 0, maxlen=200)
+    stream = io.BytesIO(data)
+    for i in range(count):
+        start = stream.tell()
+        if mode["align"] and start % 16:
+            start += 16 - start % 16
+            stream.seek(start)
+        rec = {"id": rid + i, "kind": "parse", "type": t, "mode": mode, "consts": scn["consts"] or {"_": 0}, "input": list(data),
+               "start": start, "defs": scn["defs"], "req_compiled": compiled, "tag": f"history-{i}"}
+        try:
+            v = T.read(stream)
+            res = {"status": "ok", "exc": "", "v": project(v, t), "pos": stream.tell(), "sizes": sizes_of(v, T), "dump": NO_DUMP, "re": NO_RE}
+            res["dump"], res["re"] = observe_dump(T, t, v)
+        except Exception as e:  # noqa: BLE001
+            res = {"status": classify(e), "exc": f"{type(e).__name__}: {e}"[:200], "v": NONE_V, "pos": 0, "sizes": [], "dump": NO_DUMP, "re": NO_RE}
+        rec["obs"] = {"layout": project_layout(T), "res": res}
+        out.append(rec)
+        if res["status"] != "ok" or stream.tell() >= len(data):
+            break
+    return out
